@@ -443,3 +443,163 @@ U_TSHORT = Unit(P + '/taper-too-short', ['taper1', 'taper2'], t_taper_short, SCH
                           Canary('taper2-assertion-before-Taper_Error', 'taper2', _AssertFirst, [P + '/taper2/too-short'])])
 
 UNITS = [U_WIRE, U_ARC, U_HELIX, U_EXC, U_ATT, U_MED, U_TAPER, U_LOADS, U_TSHORT]
+
+
+# ---------------------------------------------------------------- transformations (added in round 1b)
+def transform_reader(option, loop_text, method):
+    name = '%s/main[%s reader]' % (P, option)
+    lays = list(layouts([[(F, 'key'), (F, 'x'), (F, 'y'), (F, 'z')], [(F, 'key'), (F, 'x'), (F, 'y'), (F, 'z'), (I, 'tag')]]))
+
+    def thunk(eng):
+        lab, kinds, ok = lays[eng.choose(len(lays))]
+        fields = MS.field_variants(eng, kinds)
+        txt = eng.mk_fields(fields)
+        loop = MS.loop_of(eng, loop_text)
+        geo = SObj('Geo_Container', label='geo')
+        gt = SList()
+        var = ast.unparse(loop.target)
+        env = {var: txt, 'geo': geo, 'geo_transforms': gt, 'f_err': AStr([('lit', '<stderr>')])}
+        out = MS.run_stmts(eng, loop.body, env)
+        eng.cover('%s-%s' % (option, lab))
+        MS.containment(eng, name + '/' + lab, out)
+        items = gt.concrete() if gt.is_concrete() else None
+        if not ok:
+            eng.oblige(name + '/' + lab + '/is-rejected-and-nothing-queued', out.kind == 'return' and items == [])
+            return
+        okc = out.kind == 'normal' and items is not None and len(items) == 1 and len(items[0]) == 5
+        eng.oblige(name + '/' + lab + '/one-transformation-queued', okc)
+        if okc:
+            key, fn, vecv, tag, orig = items[0]
+            vals = [f[0] for f in fields]
+            from pyvc.engine import BoundMethod
+            eng.oblige(name + '/' + lab + '/sort-key-vector-and-tag-in-the-documented-positions',
+                       b_and(eng.values_equal(key, vals[0]),
+                             isinstance(vecv, NDArr) and bterm(b_and(*[eng.values_equal(a, b) for a, b in zip(vecv.data, vals[1:4])])),
+                             eng.values_equal(tag, vals[4] if len(vals) == 5 else None)))
+            eng.oblige(name + '/' + lab + '/queued-for-the-right-operation',
+                       isinstance(fn, BoundMethod) and fn.obj is geo and fn.fref.qual == 'Geo_Container.' + method)
+    return Unit(name, ['main'], thunk, SCH, slices={'main': 'body of the loop over %s' % loop_text})
+
+
+U_ROT = transform_reader('--geo-rotate', 'args.geo_rotate', 'rotate')
+U_TRA = transform_reader('--geo-translate', 'args.geo_translate', 'translate')
+
+
+def t_scale_reader(eng):
+    name = P + '/main[--geo-scale reader]'
+    lays = list(layouts([[(F, 'factor')], [(F, 'factor'), (I, 'tag')]]))
+    lab, kinds, ok = lays[eng.choose(len(lays))]
+    fields = MS.field_variants(eng, kinds)
+    txt = eng.mk_fields(fields)
+    loop = MS.loop_of(eng, 'args.geo_scale')
+    calls = []
+
+    def scale(e, a, k):
+        c = e.choose(3)
+        if c == 1:
+            raise PyRaise('ValueError', ('zero length',))
+        if c == 2:
+            raise PyRaise('KeyError', ('unknown tag',))
+        calls.append(list(a))
+    eng.summaries['Geo_Container.scale'] = scale
+    env = {'scl': txt, 'geo': SObj('Geo_Container', label='geo'), 'f_err': AStr([('lit', '<stderr>')])}
+    out = MS.run_stmts(eng, loop.body, env)
+    eng.cover('scale-' + lab)
+    MS.containment(eng, name + '/' + lab, out)
+    if not ok:
+        eng.oblige(name + '/' + lab + '/is-rejected', out.kind == 'return' and not calls)
+        return
+    if out.kind == 'normal':
+        vals = [f[0] for f in fields]
+        eng.oblige(name + '/' + lab + '/factor-then-optional-tag',
+                   len(calls) == 1 and bterm(b_and(eng.values_equal(calls[0][1], vals[0]),
+                                                   eng.values_equal(calls[0][2], vals[1] if len(vals) == 2 else None))))
+
+
+U_SCL = Unit(P + '/main[--geo-scale reader]', ['main'], t_scale_reader, SCH, slices={'main': 'body of the loop over args.geo_scale'})
+
+
+def t_apply_order(eng):
+    """the queued transformations are applied in sort-key order (stable), each inside a handler; scaling comes after
+    all of them and before tapering and before the model is built (statement order of main)"""
+    name = P + '/main[transformation order]'
+    main = eng.get_fnode('main')
+    cands = [x for x in main.body if isinstance(x, ast.For) and 'geo_transforms' in ast.unparse(x.iter)]
+    if len(cands) != 1:
+        from pyvc.source import Unresolved
+        raise Unresolved('loop applying geo_transforms')
+    loop = cands[0]
+    geo = SObj('Geo_Container', label='geo')
+    from pyvc.engine import BoundMethod, FuncRef
+    log = []
+
+    def mk(kind):
+        def f(e, a, k):
+            c = e.choose(3)
+            if c == 1:
+                raise PyRaise('ValueError', ('zero length',))
+            if c == 2:
+                raise PyRaise('KeyError', ('unknown tag',))
+            log.append((kind, a[1]))
+        return f
+    eng.summaries['Geo_Container.rotate'] = mk('rotate')
+    eng.summaries['Geo_Container.translate'] = mk('translate')
+    keys = [fresh_real('k%d' % i) for i in range(3)]
+    kinds3 = ['rotate', 'translate', 'rotate']
+    gt = SList([('conc', [(keys[i], eng.getattr(geo, kinds3[i]), NDArr([0, 0, i]), None, AStr([('lit', 't%d' % i)])) for i in range(3)])])
+    env = {'geo_transforms': gt, 'geo': geo}
+    out = MS.run_stmts(eng, [loop], env)
+    eng.cover('apply-order')
+    MS.containment(eng, name, out)
+    if out.kind == 'normal':
+        eng.oblige(name + '/every-queued-transformation-applied-once', len(log) == 3)
+        if len(log) == 3:
+            pos = {id(k): i for i, k in enumerate(keys)}
+            order = [pos[id(k)] for _, k in log]
+            conds = []
+            for a, b in zip(order, order[1:]):
+                # applied in non-decreasing key order; equal keys keep their queue order (stable)
+                conds.append(b_or(r_cmp('<', keys[a], keys[b]), b_and(r_cmp('==', keys[a], keys[b]), a < b)))
+            eng.oblige(name + '/applied-in-sort-key-order-(stable)', b_and(*conds))
+    # statement order in main
+    idx = {}
+    for k, st in enumerate(main.body):
+        t = ast.unparse(st)
+        if isinstance(st, ast.For) and 'sorted(geo_transforms' in t.replace(' ', ''):
+            idx['apply'] = k
+        elif isinstance(st, ast.For) and ast.unparse(st.iter).replace(' ', '') == 'args.geo_scale':
+            idx['scale'] = k
+        elif isinstance(st, ast.For) and ast.unparse(st.iter).replace(' ', '') == 'args.taper_wire':
+            idx['taper'] = k
+        elif isinstance(st, ast.Try) and 'Mininec(args.frequency' in t.replace(' ', ''):
+            idx['model'] = k
+        elif isinstance(st, ast.Try) and 'geo.compute_tags' in t:
+            idx['tags'] = k
+    eng.oblige(name + '/tags-then-transformations-then-scaling-then-tapering-then-the-model',
+               len(idx) == 5 and idx['tags'] < idx['apply'] < idx['scale'] < idx['taper'] < idx['model'], detail=str(idx))
+
+
+class _ScaleFirst(ast.NodeTransformer):
+    def visit_FunctionDef(self, node):
+        b = node.body
+        ia = [k for k, st in enumerate(b) if isinstance(st, ast.For) and 'sorted(geo_transforms' in ast.unparse(st).replace(' ', '')]
+        isc = [k for k, st in enumerate(b) if isinstance(st, ast.For) and ast.unparse(st.iter).replace(' ', '') == 'args.geo_scale']
+        if ia and isc:
+            b[ia[0]], b[isc[0]] = b[isc[0]], b[ia[0]]
+        return node
+
+
+class _NoSortKey(ast.NodeTransformer):
+    def visit_Call(self, node):
+        self.generic_visit(node)
+        if isinstance(node.func, ast.Name) and node.func.id == 'sorted' and 'geo_transforms' in ast.unparse(node):
+            return node.args[0]
+        return node
+
+
+U_ORDER = Unit(P + '/main[transformation order]', ['main'], t_apply_order, SCH,
+               slices={'main': 'the loop over sorted (geo_transforms, ...) and the statement order of main'},
+               canaries=[Canary('scaling-before-the-other-transformations', 'main', _ScaleFirst, [P + '/main[transformation order]/tags-then']),
+                         Canary('transformations-in-option-order', 'main', _NoSortKey, [P + '/main[transformation order]/'])])
+
+UNITS = UNITS + [U_ROT, U_TRA, U_SCL, U_ORDER]
